@@ -14,6 +14,7 @@ def main():
     names = args or sorted(n for n in os.listdir(D) if os.path.isdir(os.path.join(D, n)))
     rp = os.path.join(D, "RESULTS.json")
     allres = {}
+    touched = set()
     for name in names:
         d = os.path.join(D, name)
         meta = json.load(open(os.path.join(d, "meta.json")))
@@ -26,6 +27,7 @@ def main():
             if r.returncode != 0:
                 print(name, "PATCH-DOES-NOT-APPLY", r.stderr.strip()[:200]); allres[name] = {"verdict": "PATCH-DOES-NOT-APPLY"}; continue
             for p in props:
+                touched.add(p)
                 r = subprocess.run(["./check", p, "--tier", tier], cwd=HERE, env=dict(os.environ, VH_REPO=tmp), capture_output=True, text=True)
                 sigs = [l.strip().replace("signature: ", "") for l in r.stdout.splitlines() if l.strip().startswith("signature:")]
                 verdict = {0: "SILENT", 1: "ALARM", 2: "ERROR"}.get(r.returncode, "rc=%d" % r.returncode)
@@ -35,7 +37,10 @@ def main():
                     print(r.stdout[-1200:])
         finally:
             shutil.rmtree(tmp, ignore_errors=True)
-    subprocess.run(["git", "checkout", "--", "evidence"], cwd=HERE)
+    # the runs above rewrote the evidence files of the properties they touched: put the committed ones back
+    # (only those - other work in progress in evidence/ is left alone)
+    for pp in sorted(touched):
+        subprocess.run(["git", "checkout", "--", "evidence/%s.json" % pp], cwd=HERE, stderr=subprocess.DEVNULL)
     with open(rp + ".lock", "w") as lk:
         fcntl.flock(lk, fcntl.LOCK_EX)
         old = json.load(open(rp)) if os.path.exists(rp) else {}
